@@ -2,7 +2,8 @@
 //
 // Small-scope enumeration: every data file = skeleton (apex example.com with
 // SOA+NS and the resolver-map plumbing) + every subset of <=k items of the
-// record alphabet (alphabet.go); every file is compiled with the REAL compilers
+// combinable record alphabet, or + exactly one value-domain item (a boundary
+// value of one rdata / name field; alphabet.go); every file is compiled with the REAL compilers
 // for each of the three storage configurations, opened with the REAL handler and
 // asked every query of the closed name universe x qtypes x clients. Each response
 // is compared with the reference interpreter (model.go), which reads only the
